@@ -778,6 +778,160 @@ Proof.
 Qed.
 
 
+Lemma cut_scan_some_anchor a evs r : cut_scan a evs = Some r -> existsb (is_anchor a) evs = true.
+Proof.
+  induction evs as [|f e IH]; [discriminate|]. cbn [cut_scan existsb]. fold (is_anchor a f).
+  destruct (is_anchor a f); [reflexivity|]. cbn [orb]. exact IH.
+Qed.
+
+(* the fix (head_seq_seen_by_messages_runs_v1): with the head the repaired readers use, a compile that runs while the
+   frame f is being appended (full sidecar written; mr sidecar not yet, or already) takes the cut of the thread before the
+   append when f belongs in the mr sidecar and is not there yet, and the cut of the thread after it otherwise *)
+Lemma last_frame_app l f : last_frame (l ++ [f]) = Some f.
+Proof.
+  unfold last_frame. rewrite map_app. cbn [map].
+  induction (map Some l) as [|x r IH]; [reflexivity|]. cbn [app]. destruct (r ++ [Some f]) eqn:E.
+  - destruct r; discriminate.
+  - exact IH.
+Qed.
+
+Lemma last_frame_in l g : last_frame l = Some g -> In g l.
+Proof.
+  unfold last_frame. induction l as [|x r IH]; [discriminate|]. cbn [map last].
+  destruct (map Some r) eqn:E.
+  - intros H. inversion H. now left.
+  - intros H. right. apply IH. exact H.
+Qed.
+
+Lemma head_seq_app l f : head_seq (l ++ [f]) = fseq f.
+Proof.
+  unfold head_seq. rewrite map_app. cbn [map].
+  induction (map fseq l) as [|x r IH]; [reflexivity|]. cbn [app]. destruct (r ++ [fseq f]) eqn:E.
+  - destruct r; discriminate.
+  - exact IH.
+Qed.
+
+Lemma head_seen_unfixed full mr : head_seen false full mr = match last_frame full with Some f => fseq f | None => 0 end.
+Proof. unfold head_seen. destruct (last_frame full); reflexivity. Qed.
+
+Lemma contig_last b l f : contig_from b (l ++ [f]) = true -> fseq f = b + N.of_nat (length l).
+Proof.
+  revert b. induction l as [|x r IH]; intros b H.
+  - cbn in H. apply andb_true_iff in H. destruct H as [E _]. apply N.eqb_eq in E. cbn. lia.
+  - cbn [app contig_from] in H. apply andb_true_iff in H. destruct H as [_ C].
+    rewrite (IH _ C). cbn [length]. lia.
+Qed.
+
+Lemma contig_head b l : contig_from b l = true -> l <> [] -> head_seq l + 1 = b + N.of_nat (length l).
+Proof.
+  intros C Ne. destruct (exists_last Ne) as (l' & x & ->).
+  rewrite head_seq_app, (contig_last b l' x C), app_length. cbn [length]. lia.
+Qed.
+
+Theorem racing_append_linearizes l f a :
+  valid_log (l ++ [f]) = true -> l <> [] ->
+  existsb (is_anchor a) (filter mr_keep l) = true ->
+  tail_cut (filter mr_keep l) (head_seen true (l ++ [f]) (filter mr_keep l)) a
+    = (if mr_keep f then cut_point l a else cut_point (l ++ [f]) a)
+  /\ tail_cut (filter mr_keep (l ++ [f])) (head_seen true (l ++ [f]) (filter mr_keep (l ++ [f]))) a
+    = cut_point (l ++ [f]) a.
+Proof.
+  intros V Ne Ea. pose proof (valid_incr _ V) as S.
+  destruct (incr_app_inv _ _ S) as (Sl & _ & Lt).
+  unfold head_seen. rewrite last_frame_app. cbn [andb]. split.
+  - destruct (mr_keep f) eqn:Kf; cbn [andb].
+    + assert (C : (match last_frame (filter mr_keep l) with Some g => fseq g <? fseq f | None => true end) = true).
+      { destruct (last_frame (filter mr_keep l)) as [g|] eqn:Lg; [|reflexivity].
+        apply last_frame_in in Lg. apply filter_In in Lg. destruct Lg as [Ig _].
+        specialize (Lt g f Ig (or_introl eq_refl)). lia. }
+      rewrite C.
+      assert (H : fseq f - 1 = head_seq l).
+      { unfold valid_log in V. pose proof (contig_last 0 l f V) as E1.
+        pose proof (contig_head 0 l (contig_app_l 0 l [f] V) Ne) as E2. lia. }
+      rewrite H. apply (tail_cut_agrees mr_keep l [] (filter mr_keep l) a Sl (fun g K => K) eq_refl Ea).
+    + rewrite <- (head_seq_app l f). apply (racing_cut_non_mr_frame mr_keep l f a S (fun g K => K) Kf Ea).
+  - assert (C : (mr_keep f && (match last_frame (filter mr_keep (l ++ [f])) with Some g => fseq g <? fseq f | None => true end)) = false).
+    { destruct (mr_keep f) eqn:Kf; [|reflexivity]. cbn [andb].
+      rewrite filter_app. cbn [filter]. rewrite Kf, last_frame_app. lia. }
+    rewrite C. rewrite <- (head_seq_app l f).
+    apply (tail_cut_agrees mr_keep (l ++ [f]) [] (filter mr_keep (l ++ [f])) a S (fun g K => K) eq_refl).
+    rewrite filter_app, existsb_app, Ea. reflexivity.
+Qed.
+
+(* ... and so do decision and bundle (the checkpoint source is the checkpoint sidecar, which a frame that is not a
+   checkpoint does not touch) *)
+Theorem racing_compile_linearizes P texts l f a from :
+  valid_log (l ++ [f]) = true -> wf_refs (l ++ [f]) = true -> l <> [] -> is_ckpt f = false ->
+  tail_cut (filter mr_keep l) (head_seen true (l ++ [f]) (filter mr_keep l)) a = Some from ->
+  Some (compile_with P texts (filter mr_keep l) (filter is_ckpt l) from a)
+  = if mr_keep f then compile P texts l a else compile P texts (l ++ [f]) a.
+Proof.
+  intros V W Ne Ck Tc. pose proof (valid_incr _ V) as S.
+  destruct (incr_app_inv _ _ S) as (Sl & _ & _).
+  assert (Ea : existsb (is_anchor a) (filter mr_keep l) = true).
+  { unfold tail_cut in Tc. destruct (cut_scan a (filter mr_keep l)) eqn:Cs; [|discriminate]. eapply cut_scan_some_anchor; exact Cs. }
+  destruct (racing_append_linearizes l f a V Ne Ea) as [R _]. rewrite Tc in R.
+  unfold wf_refs in W. rewrite forallb_app in W. apply andb_true_iff in W. destruct W as [Wl Wf].
+  destruct (mr_keep f) eqn:Kf.
+  - apply (all_paths_agree P texts mr_keep l a from (filter mr_keep l) Sl Wl (eq_sym R)).
+    split; [auto|]. exists l, []. repeat split; [now left|now left].
+  - assert (Ec : filter is_ckpt l = filter is_ckpt (l ++ [f])).
+    { rewrite filter_app. cbn [filter]. rewrite Ck. now rewrite app_nil_r. }
+    rewrite Ec.
+    apply (all_paths_agree P texts mr_keep (l ++ [f]) a from (filter mr_keep l) S); [|exact (eq_sym R)|].
+    + unfold wf_refs. rewrite forallb_app, Wl, Wf. reflexivity.
+    + split; [auto|]. exists (l ++ [f]), []. repeat split; [now left| |now left].
+      rewrite filter_app. cbn [filter app]. rewrite Kf. now rewrite app_nil_r.
+Qed.
+
+(* S25: a checkpoint frame in flight.  The head is the checkpoint frame (it is not in the mr projection); the repaired
+   lookups notice that the checkpoint caches do not hold it yet and answer from the stream: the thread after the append *)
+Theorem racing_checkpoint_linearizes P texts l f a from :
+  valid_log (l ++ [f]) = true -> wf_refs (l ++ [f]) = true -> is_ckpt f = true ->
+  tail_cut (filter mr_keep l) (head_seen true (l ++ [f]) (filter mr_keep l)) a = Some from ->
+  Some (compile_with P texts (filter mr_keep l) (ckpts_seen true (l ++ [f]) (filter is_ckpt l)) from a)
+  = compile P texts (l ++ [f]) a.
+Proof.
+  intros V W Ck Tc. pose proof (valid_incr _ V) as S.
+  destruct (incr_app_inv _ _ S) as (_ & _ & Lt).
+  assert (Ea : existsb (is_anchor a) (filter mr_keep l) = true).
+  { unfold tail_cut in Tc. destruct (cut_scan a (filter mr_keep l)) eqn:Cs; [|discriminate]. eapply cut_scan_some_anchor; exact Cs. }
+  assert (Ne : l <> []) by (intros ->; discriminate Ea).
+  assert (Kf : mr_keep f = false).
+  { unfold mr_keep, is_msg, is_run_ended. unfold is_ckpt in Ck. destruct (fb f); try discriminate; reflexivity. }
+  destruct (racing_append_linearizes l f a V Ne Ea) as [R _]. rewrite Tc, Kf in R.
+  assert (Cs : ckpts_seen true (l ++ [f]) (filter is_ckpt l) = filter is_ckpt (l ++ [f])).
+  { unfold ckpts_seen. rewrite last_frame_app, Ck. cbn [andb].
+    destruct (last_frame (filter is_ckpt l)) as [g|] eqn:Lg; [|reflexivity].
+    apply last_frame_in in Lg. apply filter_In in Lg. destruct Lg as [Ig _].
+    specialize (Lt g f Ig (or_introl eq_refl)). replace (fseq g <? fseq f) with true by lia. reflexivity. }
+  rewrite Cs.
+  apply (all_paths_agree P texts mr_keep (l ++ [f]) a from (filter mr_keep l) S W (eq_sym R)).
+  split; [auto|]. exists (l ++ [f]), []. repeat split; [now left| |now left].
+  rewrite filter_app. cbn [filter app]. rewrite Kf. now rewrite app_nil_r.
+Qed.
+
+(* before that fix: cut = the checkpoint frame, checkpoints = those of the thread before it: neither state of the thread *)
+Definition race_ckpt : frame := mkf 3 (BCkpt true 1 0).
+Lemma racing_checkpoint_unfixed_refuted :
+  valid_log (race_log ++ [race_ckpt]) = true /\ wf_refs (race_log ++ [race_ckpt]) = true
+  /\ tail_cut (filter mr_keep race_log) (head_seen true (race_log ++ [race_ckpt]) (filter mr_keep race_log)) 2 = Some 3
+  /\ Some (compile_with unfixed_params no_texts (filter mr_keep race_log) (ckpts_seen false (race_log ++ [race_ckpt]) (filter is_ckpt race_log)) 3 2)
+     <> compile unfixed_params no_texts race_log 2
+  /\ Some (compile_with unfixed_params no_texts (filter mr_keep race_log) (ckpts_seen false (race_log ++ [race_ckpt]) (filter is_ckpt race_log)) 3 2)
+     <> compile unfixed_params no_texts (race_log ++ [race_ckpt]) 2
+  /\ option_map (fun r => b_items (snd r)) (compile unfixed_params no_texts (race_log ++ [race_ckpt]) 2) = Some [ISummary 0 1; IUser 2].
+Proof. conjs; try (vm_compute; reflexivity); vm_compute; discriminate. Qed.
+
+(* the code before the fix is the `fixed = false` head: racing_cut_refuted in terms of head_seen *)
+Lemma racing_cut_unfixed_refuted :
+  valid_log (race_log ++ [race_frame]) = true /\ race_log <> []
+  /\ existsb (is_anchor 2) (filter mr_keep race_log) = true
+  /\ tail_cut (filter mr_keep race_log) (head_seen false (race_log ++ [race_frame]) (filter mr_keep race_log)) 2 = Some 3
+  /\ cut_point race_log 2 = Some 2 /\ cut_point (race_log ++ [race_frame]) 2 = Some 2
+  /\ tail_cut (filter mr_keep race_log) (head_seen true (race_log ++ [race_frame]) (filter mr_keep race_log)) 2 = Some 2.
+Proof. conjs; try (vm_compute; reflexivity). discriminate. Qed.
+
 (* ------------------------------------------------------------------ checkpoint selection: characterization *)
 Definition ckpts (l : log) : list ckpt :=
   flat_map (fun f => match ckpt_of f with Some c => [c] | None => [] end) l.
@@ -1132,12 +1286,6 @@ Proof.
   unfold lastn_frames. exists (rev (skipn k (rev x))). split.
   - rewrite <- rev_app_distr, firstn_skipn, rev_involutive. reflexivity.
   - intros H. rewrite skipn_all2; [reflexivity|]. rewrite rev_length. exact H.
-Qed.
-
-Lemma cut_scan_some_anchor a evs r : cut_scan a evs = Some r -> existsb (is_anchor a) evs = true.
-Proof.
-  induction evs as [|f e IH]; [discriminate|]. cbn [cut_scan existsb]. fold (is_anchor a f).
-  destruct (is_anchor a f); [reflexivity|]. cbn [orb]. exact IH.
 Qed.
 
 (* any counting rule the acceptance test may use, as long as it is the sound one (messages at or before the cut) *)
